@@ -314,7 +314,12 @@ func vkContent(ev vkEv, m *dns.Msg) string {
 				return "new"
 			}
 		case *dns.DS:
+			if zonemodel.Canon(x.Hdr.Name) == vkZoneG {
+				return "old" // published by the old child's servers
+			}
 			return "parent"
+		case *dns.DNSKEY:
+			return "key" // the same key set at the old and the re-pointed child
 		}
 	}
 	for _, rr := range m.Ns {
@@ -414,7 +419,7 @@ func (w *vkWorld) query(ev vkEv) vkStep {
 		}
 	}
 	// (b) after the parent's change and the end of every old lease the client no longer sees the old child's data
-	if !w.ref.changed.IsZero() && ev.Type != dns.TypeDS {
+	if !w.ref.changed.IsZero() && !(ev.Type == dns.TypeDS && zonemodel.Canon(ev.Name) == vkZoneC) { // c.p. DS is the parent's own data
 		if end := w.ref.oldLeaseEnd(); !end.After(t0) && content == "old" {
 			st.Viol = fmt.Sprintf("%s at %s still answered with the OLD child's data although the parent %s the delegation at %s and the last old lease ended at %s: %s; upstream: [%s]",
 				ev, w.rel(t0), map[int]string{vkPhaseWithdrawn: "withdrew", vkPhaseRepointed: "re-pointed"}[w.phase], w.rel(w.ref.changed), w.rel(end), vkMsgStr(m), vkExStr(ex))
@@ -438,6 +443,8 @@ func vkQClass(ev vkEv) string {
 		return "negative"
 	case ev.Type == dns.TypeDS:
 		return "ds"
+	case ev.Type == dns.TypeDNSKEY:
+		return "dnskey"
 	case ev.Type == dns.TypeNS:
 		return "apex-ns"
 	case strings.HasSuffix(n, "."+vkZoneG):
@@ -454,6 +461,13 @@ var vkAlphabetQs = []vkEv{
 	{K: "q", Name: "c.p.", Type: dns.TypeNS},
 	{K: "q", Name: "c.p.", Type: dns.TypeDS},
 	{K: "q", Name: "nx.c.p.", Type: dns.TypeA},
+}
+
+// vkExtraQs join the alphabet when validation is on: records that exist only for DNSSEC and are learned through the
+// old child delegation (its DNSKEY RRset; the DS of the grandchild, which the child's servers publish).
+var vkExtraQs = []vkEv{
+	{K: "q", Name: "c.p.", Type: dns.TypeDNSKEY},
+	{K: "q", Name: "g.c.p.", Type: dns.TypeDS},
 }
 
 func vkSecs(d time.Duration) int { return int(d.Round(time.Second) / time.Second) }
@@ -490,7 +504,7 @@ func (w *vkWorld) digest() (string, bool) {
 			}
 		}
 	}
-	for _, q := range vkAlphabetQs {
+	for _, q := range append(append([]vkEv{}, vkAlphabetQs...), vkExtraQs...) {
 		for _, cd := range []bool{false, true} {
 			e := cache.VerifC08Peek(w.pl.Cache(), dns.Question{Name: q.Name, Qtype: q.Type, Qclass: dns.ClassINET}, cd, now)
 			if e.Found && e.Remaining > 0 {
